@@ -58,7 +58,31 @@ def arbitrary_texts(rng, n):
     return out
 
 
-def reading(text):
+ENV_LINES = {
+    'I': None,      # the ISA of the document (filled in by envelope_soups)
+    'G': 'GS*HC*S*R*20030828*1128*17*X*004010X098A1', 'g': 'GS*HC*S*R*20030828*1128*18*X*004010X098A1',
+    'S': 'ST*837*0001', 'E': 'SE*2*0001', 'e': 'SE*2*0002', 'F': 'GE*1*17', 'f': 'GE*1*18',
+    'Z': 'IEA*1*000000001', 'z': 'IEA*1*000000002',
+}
+
+
+def envelope_soups(rng, exhaustive_len, n_random):
+    """every sequence of envelope lines (ISA GS ST SE GE IEA, matching ids) up to exhaustive_len after the header, plus random
+    longer ones with mismatching ids: all states of the reader's loop stack, incl. trailers that find a foreign or empty stack"""
+    import itertools
+    I = docgen.isa('000000001', ('~', '*', ':'))
+    out = []
+    for n in range(0, exhaustive_len + 1):
+        for seq in itertools.product('IGSEFZ', repeat=n):
+            out.append(('soup', 'soup:' + ''.join(seq), I + '~' + ''.join((I if c == 'I' else ENV_LINES[c]) + '~' for c in seq)))
+    keys = 'IGgSEeFfZz'
+    for _ in range(n_random):
+        seq = [rng.choice(keys) for _ in range(rng.randint(5, 10))]
+        out.append(('soup', 'soup:' + ''.join(seq), I + '~' + ''.join((I if c == 'I' else ENV_LINES[c]) + '~' for c in seq)))
+    return out
+
+
+def reading(text, loops=(None, '2000A', 'ST_LOOP')):
     """plain reading and context-reader iteration: -> [exception names that escaped]"""
     import pyx12.error_handler
     import pyx12.params
@@ -73,7 +97,7 @@ def reading(text):
     except Exception as e:  # noqa
         if type(e).__name__ != 'X12Error':
             bad.append(('reader', type(e).__name__, str(e)[:80]))
-    for loop_id in (None, '2000A', 'ST_LOOP'):
+    for loop_id in loops:
         try:
             src = pyx12.x12context.X12ContextReader(pyx12.params.params(), pyx12.error_handler.errh_null(), io.StringIO(text))
             for node in src.iter_segments(loop_id):
@@ -108,6 +132,15 @@ def run(ctx, report):
     cases = pipecorr.documents(rng, 400 if thorough else 70, thorough)
     cases += arbitrary_texts(rng, 300 if thorough else 60)
     pipecorr.run(report, ctx, rng, cases, 3 if thorough else 2, oracle)
+    # envelope soups: plain reading and context iteration on all of them, the whole pipeline on a sample
+    soups = envelope_soups(rng, 5 if thorough else 4, 600 if thorough else 100)
+    report.count('envelope-soups', len(soups))
+    pipecorr.run(report, ctx, rng, rng.sample(soups, 300 if thorough else 60), 2, oracle)
+    for (kind, what, text) in soups:
+        report.case(('soup-read', text))
+        for (which, name, msg) in reading(text, loops=(None,)):
+            report.count('reading-raises')
+            report.fail('C07:%s-escapes:%s' % (which.split(':')[0], name), '%s raised %s: %s' % (which, name, msg), {'text': text[:3000], 'what': what})
     # reading and context iteration
     for (kind, what, text) in cases[:(400 if thorough else 90)]:
         for (which, name, msg) in reading(text):
